@@ -6,13 +6,17 @@
 package main
 
 import (
+	"crypto/sha256"
+	"encoding/hex"
 	"flag"
 	"fmt"
 	"go/ast"
 	"go/parser"
+	"go/printer"
 	"go/token"
 	"os"
 	"path/filepath"
+	"sort"
 	"strconv"
 	"strings"
 
@@ -131,6 +135,37 @@ func upgradeVersions(repo string) (exported string, lit bool, sekai string, err 
 	return
 }
 
+// genesisFingerprints: sha256 of the printed source of every Init/ExportGenesis function (AppModule methods
+// and package-level functions) of each module, so that the check can tell that audited genesis code changed.
+func genesisFingerprints(repo string, mods []string) map[string]string {
+	out := map[string]string{}
+	for _, mod := range mods {
+		fset := token.NewFileSet()
+		pkgs, err := parser.ParseDir(fset, filepath.Join(repo, "x", mod), func(fi os.FileInfo) bool { return !strings.HasSuffix(fi.Name(), "_test.go") }, 0)
+		if err != nil {
+			continue
+		}
+		var parts []string
+		for _, pkg := range pkgs {
+			for _, f := range pkg.Files {
+				for _, d := range f.Decls {
+					fd, ok := d.(*ast.FuncDecl)
+					if !ok || (fd.Name.Name != "InitGenesis" && fd.Name.Name != "ExportGenesis") {
+						continue
+					}
+					var b strings.Builder
+					printer.Fprint(&b, fset, fd)
+					parts = append(parts, b.String())
+				}
+			}
+		}
+		sort.Strings(parts)
+		h := sha256.Sum256([]byte(strings.Join(parts, "\n")))
+		out[mod] = hex.EncodeToString(h[:8])
+	}
+	return out
+}
+
 func main() {
 	repo := flag.String("repo", "/repo", "repository root")
 	out := flag.String("out", "", "output .v file")
@@ -183,6 +218,16 @@ func main() {
 			sep = ""
 		}
 		b.WriteString("  (" + coqStr(m) + ", [" + joinStr(r.ImportCalls[m]) + "])" + sep + "\n")
+	}
+	b.WriteString("].\n\n")
+	fps := genesisFingerprints(*repo, r.Modules)
+	b.WriteString("(* sha256 (first 8 bytes) of the Init/ExportGenesis functions of each module *)\nDefinition genesis_fingerprints : list (string * string) := [\n")
+	for i, m := range r.Modules {
+		sep := ";"
+		if i == len(r.Modules)-1 {
+			sep = ""
+		}
+		b.WriteString("  (" + coqStr(m) + ", " + coqStr(fps[m]) + ")" + sep + "\n")
 	}
 	b.WriteString("].\n\n")
 	b.WriteString("(* functions on an ExportGenesis path that write into a map declared without initialiser *)\n")
